@@ -81,6 +81,17 @@ def cases(tier, seed):
                         "kernel": spec, "d": d, "n1": npat[0], "n2": npat[1], "rel": npat[2], "pbatch": pb, "xbatch": xb,
                         "path": rnd.choice(PATHS), "regime": rnd.choice(REGIMES), "seed": rnd.randrange(10**6),
                     }
+    # inputs far from the origin, more rows than the pairwise-distance routines' small-matrix cut-over (25): the
+    # covariance function depends on differences only, whatever the common offset
+    far = [sp for sp in BASE if sp["k"] in ("rbf", "matern", "rq", "pp", "periodic", "cosine")] + COMPOSED[:2]
+    for rep in range(1 if tier == "quick" else 6):
+        for spec in far:
+            for npat in ((30, 27, "diff"), (27, 27, "same"), (3, 31, "diff")):
+                pb, xb = rnd.choice(BATCH[:4])
+                yield {
+                    "kernel": spec, "d": rnd.choice([1, 2, 3]), "n1": npat[0], "n2": npat[1], "rel": npat[2], "pbatch": pb, "xbatch": xb,
+                    "path": rnd.choice(PATHS), "regime": "faraway", "offset": rnd.choice([1e3, 3e4, 1e5]), "seed": rnd.randrange(10**6),
+                }
     ng = 2 if tier == "quick" else 25
     for rep in range(ng):
         for gk in GRADK:
@@ -144,6 +155,22 @@ def _oracle(spec, kern, x1, x2):
     return O.dense(kern, x1, x2)
 
 
+def _sens(kern):
+    """upper bound on |d k / d (one input coordinate)| from the constrained parameter values"""
+    import torch
+
+    worst = 1.0
+    for name, mod in kern.named_modules():
+        ls = float(mod.lengthscale.min()) if getattr(mod, "has_lengthscale", False) and mod.lengthscale is not None else 1.0
+        f = 3.0 / ls
+        if hasattr(mod, "period_length"):
+            f = max(f, 7.0 / float(mod.period_length.min()) / min(ls, 1.0))
+        if hasattr(mod, "outputscale"):
+            f = f * max(1.0, float(mod.outputscale.max()))
+        worst = max(worst, f)
+    return worst
+
+
 def _has(spec, name, **kv):
     if spec.get("k") == name and all(spec.get(a) == b for a, b in kv.items()):
         return True
@@ -165,9 +192,9 @@ def run_case(case, ctx):
         return _gradkernel(case, ctx, g)
     spec, d = case["kernel"], case["d"]
     kern = _build(spec, d, case["pbatch"])
-    scale = {"random": 0.7, "small": 0.3, "large": 0.3}[case["regime"]]
+    scale = {"random": 0.7, "small": 0.3, "large": 0.3, "faraway": 0.5}[case["regime"]]
     util.randomize(kern, g, scale)
-    if case["regime"] != "random":
+    if case["regime"] in ("small", "large"):
         shift = -2.5 if case["regime"] == "small" else 3.0
         with torch.no_grad():
             for n_, p in kern.named_parameters():
@@ -192,6 +219,9 @@ def run_case(case, ctx):
     else:
         x1 = util.randn(g, *xb, n1, d)
         x2 = util.randn(g, *xb, n2, d)
+    if case["regime"] == "faraway":
+        off = case["offset"] * (1 + util.rand(g, d))
+        x1, x2 = x1 + off, x2 + off
     if case["rel"] == "same":
         x2 = x1
     path = case["path"]
@@ -207,6 +237,12 @@ def run_case(case, ctx):
         tol = (2e-5, 1e-7) if case["regime"] == "small" else (1e-6, 1e-7)
     if case["regime"] == "large" and (_has(spec, "poly") or _has(spec, "linear")):
         tol = (1e-8, 1e-7)
+    if case["regime"] == "faraway":
+        # the inputs themselves are only known to offset*2e-16; a unit change of a distance moves a kernel value by at
+        # most ~sqrt(5)/lengthscale (periodic: 2*pi/period/lengthscale): allow that conditioning, nothing more
+        tol = (max(1e-8, 50 * case["offset"] * 2.3e-16 * _sens(kern)), 1e-8)
+        if _has(spec, "matern", nu=0.5) or _has(spec, "pp"):
+            tol = (max(tol[0], 1e-6), 1e-7)
     cls = spec["k"] + ":" + path
     try:
         with S.trace_mode(path == "trace"):
